@@ -21,7 +21,9 @@ CHECKS = {
              design_ref="DESIGN.md §7 C06",
              level_text="Generated block histories with persistent and transient writes; version = previous+1, equal hashes across twins that "
                         "differ only in non-persistent inputs, different hash for a twin with an extra persistent write, transient stores "
-                        "empty right after every Commit and after restart. Exploration only.",
+                        "empty right after every Commit and after restart; every substore's own commit version equals the block version; a history twin "
+                        "reopens the database at an older version and re-executes the remaining blocks: same commit ids, each substore advancing by one "
+                        "(substores still empty at the reload version are a counted class). Exploration only.",
              level_note=_TRUST + "ResponseCommit.Data at BaseApp level is not exercised here."),
     "C07": c("storeb", "TestC07", dict(checks=5000, timeout=600), dict(checks=10000, shards=14, timeout=1500),
              level="fault_enumeration",
